@@ -135,6 +135,7 @@ func corrC18(r *Run) {
 	}
 	c18FieldDecoders(r)
 	c18ReaderScripts(r)
+	c18ReaderDecoder(r)
 	// ordered histories in fresh processes: the result must not depend on what was decoded before
 	smsHistories(r, smsHistoryCorpus(r.Rng), r.N(3, 40))
 	// every first octet x failure bit x SC present, with a short tail
@@ -253,7 +254,7 @@ func c18FieldDecoders(r *Run) {
 	}
 }
 
-// c18ReaderScripts ties the bufio model of Model/TpduReader.v (about which C18_reader_independence_partial speaks) to
+// c18ReaderScripts ties the bufio model of Model/TpduReader.v (about which C18_reader_primitives_independent / C18_reader_independence speak) to
 // the real bufio.Reader: a random script of the four primitives the decoder uses (ReadByte, readFull = io.ReadFull with
 // io.ErrUnexpectedEOF read as nil, Peek, Discard) runs on bufio.NewReader over a reader with a random chunk schedule;
 // the model must give the same observations on the chunked reader AND on the plain list.  Go library behaviour only:
@@ -303,5 +304,49 @@ func c18ReaderScripts(r *Run) {
 		r.Count(fmt.Sprintf("readerscript/%d", i), true, "bufio script on a chunked reader")
 		r.Case(fmt.Sprintf("bufio script %x %v %v: %s", data, sched, eofd, strings.Join(ops, "; ")),
 			fmt.Sprintf("script_is %s %s %s %s %s", coqHex(data), coqList(sc), coqBool(eofd), coqList(ops), coqList(obs)))
+	}
+}
+
+// c18ReaderDecoder ties the WHOLE decoder written over the bufio model (Model/TpduReader.v unmarshal_reader, about which
+// C18_reader_independence speaks) to sms.Unmarshal behind a chunking reader: each corpus entry is decoded through
+// bufio-over-schedReader with one octet per Read (io.EOF afterwards) and with a random schedule (io.EOF with or after the
+// last piece); the model evaluated ON THE SAME SCHEDULE must give the same structure and observables, or the same class.
+// Strict for the repository's pinned samples, advisory for everything else (hostile inputs, cuts of the samples).
+func c18ReaderDecoder(r *Run) {
+	r.Import("Model.TpduReaderRun")
+	corpus := smsHexList(c18Corpus)
+	one := func(in []byte, sched []int, eofd bool, strict bool, label string) {
+		o := smsRunReader(&schedReader{data: append([]byte{}, in...), sched: append([]int{}, sched...), eofWithData: eofd})
+		sc := make([]string, len(sched))
+		for j, x := range sched {
+			sc[j] = fmt.Sprintf("%d%%nat", x)
+		}
+		r.Count(fmt.Sprintf("readerdec/%s/%x/%v/%v", label, in, sched, eofd), len(in) > 2, "whole decoder on a chunked reader, model on the same schedule")
+		emit := r.Advisory
+		if strict {
+			emit = r.Case
+		}
+		desc := fmt.Sprintf("reader decoder %s %x sched %v eof-with-data %v", label, in, sched, eofd)
+		if len(desc) > 300 {
+			desc = desc[:300] + "..."
+		}
+		if o.Class == 2 {
+			r.Fail("unmarshal-panic/reader/"+label, "sms.Unmarshal panicked behind a chunking reader", "smsdec "+hex.EncodeToString(in),
+				"panic: "+o.PanicMsg, "an error or one of the eight TPDU structures")
+		}
+		if o.Class == 0 && o.ValidType {
+			emit(desc, fmt.Sprintf("sms_reader_dec_is %s %s %s \"%s\" %s", coqHex(in), coqList(sc), coqBool(eofd), o.Name, o.Term))
+		} else {
+			emit(desc, fmt.Sprintf("sms_reader_class %s %s %s =? %d", coqHex(in), coqList(sc), coqBool(eofd), o.Class))
+		}
+	}
+	for i, in := range corpus {
+		strict := i < c18Pinned
+		one(in, nil, false, strict, "corpus")
+		one(in, randSched(r.Rng, len(in)), r.Rng.Bool(), strict, "corpus")
+		if strict && len(in) > 3 {
+			cut := in[:1+r.Rng.Intn(len(in)-1)]
+			one(cut, randSched(r.Rng, len(cut)), r.Rng.Bool(), false, "corpus-cut")
+		}
 	}
 }
